@@ -11,7 +11,7 @@ import pypose as pp
 
 from ..core import rng, refmath
 from ..core.outcome import Violation
-from .clocksim import StackedLTV
+from .clocksim import StackedLTV, PropLTV
 
 NAME = "lqrsim"
 SIM_UNIT = "horizon steps solved"
@@ -22,7 +22,7 @@ CHUNK = 64
 SHRINK_LISTS = ("ops",)
 PROBES = {"C14": ["second-solve", "solve-at-stale-clock", "solve-after-jump", "solve-after-syscall", "ltv", "lti",
                   "ns=1", "batch>1", "T=1", "u:none", "u:zeros", "u:random", "u:prev", "u:prev-shifted-in-place", "x_init:non-contiguous", "x_init:expanded", "x_init:zero", "x_init:view-of-previous-plan", "solve:no_grad", "solve:split-backward-forward", "u:random-far", "two-lqr-share-system",
-                  "mpc-linear", "mpc-nonlinear", "nls-time-dependent", "mpc-nonmonotone", "unstable-A", "cond>1e4", "system:deepcopied", "dt!=1", "p=0"]}
+                  "mpc-linear", "mpc-nonlinear", "nls-time-dependent", "mpc-nonmonotone", "unstable-A", "cond>1e4", "system:deepcopied", "dt!=1", "p=0", "Q/p:mixed-forms", "ltv:property-only"]}
 import os
 TS = float(os.environ.get("PPSIM_TOLSCALE", "1"))
 TOL_FEAS = 1e-11 * TS       # relative
@@ -45,6 +45,8 @@ def generate(seed, tier, prop="C14"):
            "Qtv": r.random() < 0.5, "two": r.random() < 0.25, "h": r.choice([0.2, 0.2, 1.0, 2.5]),
            "a": r.choice([0.0, 0.0, 0.5, 0.9]), "deepcopy_sys": r.random() < 0.2,
            "dt": r.choice([1, 1, 0.05, 2]) if kind == "LTI" else 1, "pzero": r.random() < 0.12}
+    cfg["ptv"] = cfg["Qtv"] if r.random() < 0.65 else (not cfg["Qtv"])
+    cfg["prop_ltv"] = kind == "LTV" and r.random() < 0.3
     ro = rng.stream(seed, "ops")
     ops = []
     n = ro.randint(1, 8 if tier == "thorough" else 6)
@@ -79,7 +81,7 @@ def simplify(plan):
     c = plan["config"]
     cands = []
     for k, v in (("B", 1), ("T", 2), ("T", 1), ("ns", 1), ("ns", 2), ("nc", 1), ("logcond", 0), ("rho", 0.5),
-                 ("c1", False), ("Qtv", False), ("two", False), ("a", 0.0), ("h", 0.2), ("dt", 1), ("pzero", False), ("deepcopy_sys", False)):
+                 ("c1", False), ("Qtv", False), ("ptv", False), ("prop_ltv", False), ("two", False), ("a", 0.0), ("h", 0.2), ("dt", 1), ("pzero", False), ("deepcopy_sys", False)):
         if c.get(k) != v and not (k in ("T",) and c["kind"] == "LTV" and v > c["N"]):
             cc = dict(c, **{k: v})
             if k == "T":
@@ -147,6 +149,10 @@ def execute(plan, prop, out, tr):
         c1 = rng.randn(s, ("c1",), (B,) + st + (ns,), dt) if c["c1"] else None
         if kind == "LTI":
             sysm = pp.module.LTI(A, Bm, C, D, c1, None); out.probe("lti")
+        elif c.get("prop_ltv"):
+            # the second pattern of the LTV documentation: matrices and constant terms exist only as properties computed
+            # from the time; nothing is stored in the parent class
+            sysm = PropLTV({"A": A, "B": Bm, "C": C, "D": D, "c1": c1, "c2": None}, N); out.probe("ltv"); out.probe("ltv:property-only")
         else:
             sysm = StackedLTV(A, Bm, C, D, c1, None, N); out.probe("ltv")
         if c["rho"] > 1:
@@ -158,7 +164,9 @@ def execute(plan, prop, out, tr):
             sysm(rng.randn(s, ("warm-x",), (B, ns), dt), rng.randn(s, ("warm-u",), (B, nc), dt))
         sysm = _copy.deepcopy(sysm)
         out.probe("system:deepcopied")
-    if kind != "NLS":
+    if kind != "NLS" and isinstance(sysm, PropLTV):
+        A, Bm, c1 = sysm.mats["A"], sysm.mats["B"], sysm.mats["c1"]
+    elif kind != "NLS":
         A, Bm, c1 = sysm._A, sysm._B, sysm._c1      # the live buffers of the system the solvers will use
     if ns == 1:
         out.probe("ns=1")
@@ -171,17 +179,24 @@ def execute(plan, prop, out, tr):
     # ---- costs and solver objects
     lqrs, costs = [], []
     handed_costs = []       # (tensor handed to a constructor, ..., pristine copies): cost data stays the caller's
+    ptv = c.get("ptv", c["Qtv"])       # Q and p each in the per-step or the shared form, independently
+    if ptv != c["Qtv"]:
+        out.probe("Q/p:mixed-forms")
     for j in range(2 if c["two"] else 1):
         if c["Qtv"]:
-            Q = torch.stack([torch.stack([_spd(s, "Q%d_%d_%d" % (j, b, t), nsc, c["logcond"], dt) for t in range(T)])
-                             for b in range(B)])
-            p = rng.randn(s, ("p", j), (B, T, nsc), dt) * (0.0 if c.get("pzero") else 1.0)
-            lq = pp.module.LQR(sysm, Q, p, T); Qh, ph = Q, p
+            Qh = torch.stack([torch.stack([_spd(s, "Q%d_%d_%d" % (j, b, t), nsc, c["logcond"], dt) for t in range(T)])
+                              for b in range(B)])
+            Q = Qh
         else:
-            Q1 = torch.stack([_spd(s, "Q%d_%d" % (j, b), nsc, c["logcond"], dt) for b in range(B)])
-            p1 = rng.randn(s, ("p", j), (B, nsc), dt) * (0.0 if c.get("pzero") else 1.0)
-            lq = pp.module.LQR(sysm, Q1, p1, T); Qh, ph = Q1, p1
-            Q, p = Q1.unsqueeze(1).expand(B, T, nsc, nsc), p1.unsqueeze(1).expand(B, T, nsc)
+            Qh = torch.stack([_spd(s, "Q%d_%d" % (j, b), nsc, c["logcond"], dt) for b in range(B)])
+            Q = Qh.unsqueeze(1).expand(B, T, nsc, nsc)
+        if ptv:
+            ph = rng.randn(s, ("p", j), (B, T, nsc), dt) * (0.0 if c.get("pzero") else 1.0)
+            p = ph
+        else:
+            ph = rng.randn(s, ("p", j), (B, nsc), dt) * (0.0 if c.get("pzero") else 1.0)
+            p = ph.unsqueeze(1).expand(B, T, nsc)
+        lq = pp.module.LQR(sysm, Qh, ph, T)
         lqrs.append(lq); costs.append((Q.clone(), p.clone()))
         handed_costs.append((Qh, ph, Qh.clone(), ph.clone()))
     if c["two"]:
